@@ -1194,13 +1194,20 @@ def piter(
     assert input_iterable is not None
     return input_iterable
   thread_pool = _get_thread_pool(thread_pool)
-  result = piter_fn(
-      iterator_fn,
-      thread_pool=thread_pool,
-      input_iterable=input_iterable,
-      parallism=max_parallism,
-      buffer_size=buffer_size,
-  )
+  try:
+    result = piter_fn(
+        iterator_fn,
+        thread_pool=thread_pool,
+        input_iterable=input_iterable,
+        parallism=max_parallism,
+        buffer_size=buffer_size,
+    )
+  except BaseException:
+    # The threads feeding the input queue are already running: they would stay
+    # blocked on the full queue for good, the caller cannot stop them.
+    if isinstance(input_iterable, IteratorQueue):
+      input_iterable.maybe_stop()
+    raise
   if isinstance(result, IteratorQueue) and isinstance(
       input_iterable, IteratorQueue
   ):
